@@ -19,6 +19,8 @@
 #include <phosg/LRUMap.hh>
 #include <phosg/LRUSet.hh>
 
+#include <stdexcept>
+
 #include "trace.hh"
 
 using namespace std;
@@ -212,6 +214,116 @@ static string ents(const vector<Ent>& v) {
   }
   return s + "]";
 }
+// A key type whose copies can be made to fail: TK::arm = k makes the k-th copy construction / copy assignment from now on
+// throw.  An operation that fails this way must leave the container exactly as it was (no entry half-removed).
+struct TK {
+  int v;
+  static inline int arm = 0;
+  TK(int x = 0) : v(x) {}
+  TK(const TK& o) : v(o.v) {
+    if (arm && --arm == 0) throw std::runtime_error("key copy failed");
+  }
+  TK& operator=(const TK& o) {
+    if (arm && --arm == 0) throw std::runtime_error("key copy failed");
+    v = o.v;
+    return *this;
+  }
+  TK(TK&& o) noexcept : v(o.v) {}
+  TK& operator=(TK&& o) noexcept {
+    v = o.v;
+    return *this;
+  }
+  bool operator==(const TK& o) const { return v == o.v; }
+};
+namespace std {
+template <>
+struct hash<TK> {
+  size_t operator()(const TK& k) const { return hash<int>()(k.v); }
+};
+}  // namespace std
+struct XMapK : phosg::LRUMap<TK, int> {
+  bool failed = false;  // the last apply() ended with the key-copy exception
+  vector<Ent> fwd() {
+    vector<Ent> r;
+    size_t cap = this->items.size() + 2;
+    for (Item* i = this->head; i; i = i->next) {
+      r.push_back({i->key->v, US(i->size), i->value});
+      if (r.size() > cap) {
+        r.push_back({-99, 0, 0});
+        break;
+      }
+    }
+    return r;
+  }
+  vector<Ent> bwd() {
+    vector<Ent> r;
+    size_t cap = this->items.size() + 2;
+    for (Item* i = this->tail; i; i = i->prev) {
+      r.push_back({i->key->v, US(i->size), i->value});
+      if (r.size() > cap) {
+        r.push_back({-99, 0, 0});
+        break;
+      }
+    }
+    return r;
+  }
+  vector<long> apply(const Op& o, int variant = 0) {
+    failed = false;
+    try {
+      if (o.op == "insert") {
+        if (variant & 1) {
+          const TK k((int)o.k);
+          const int v = (int)o.v;
+          return {(long)this->insert(k, v, SZ(o.s))};
+        }
+        return {(long)this->insert(TK((int)o.k), (int)o.v, SZ(o.s))};
+      }
+      if (o.op == "emplace") return {(long)this->emplace(TK((int)o.k), (int)o.v, SZ(o.s))};
+      if (o.op == "erase") return {(long)this->erase(TK((int)o.k))};
+      if (o.op == "at") {
+        try {
+          return {(long)this->at(TK((int)o.k))};
+        } catch (const out_of_range&) {
+          return {-1};
+        }
+      }
+      if (o.op == "item_size") {
+        try {
+          return {US(this->item_size(TK((int)o.k)))};
+        } catch (const out_of_range&) {
+          return {-1};
+        }
+      }
+      if (o.op == "change_size") return {(long)this->change_size(TK((int)o.k), SZ(o.s), o.t != 0)};
+      if (o.op == "touch") return {(long)this->touch(TK((int)o.k), (o.s < 0 ? (ssize_t)o.s : (ssize_t)SZ(o.s)))};
+      if (o.op == "evict") {
+        // variant & 4: the next key copy inside the call fails
+        if (variant & 4) TK::arm = 1;
+        try {
+          auto p = this->evict_object();
+          TK::arm = 0;
+          return {p.key.v, p.value, US(p.size)};
+        } catch (const out_of_range&) {
+          TK::arm = 0;
+          return {-1};
+        }
+      }
+      if (o.op == "clear") {
+        this->clear();
+        return {};
+      }
+      if (o.op == "size") return {US(this->size())};
+      if (o.op == "count") return {(long)this->count()};
+      if (o.op == "empty") return {(long)this->empty()};
+    } catch (const std::runtime_error&) {
+      TK::arm = 0;
+      failed = true;
+      return {-2};
+    }
+    return {-77};
+  }
+};
+
 static string ints(const vector<long>& v) {
   string s = "[";
   for (size_t i = 0; i < v.size(); i++) {
@@ -283,8 +395,19 @@ static void random_history(vt::Trace& tr, vt::Rng& r, bool is_map, int len) {
     vector<long> ret;
     if constexpr (std::is_same_v<C, XMap>)
       ret = c.apply(o, (int)r.below(4));
+    else if constexpr (std::is_same_v<C, XMapK>)
+      ret = c.apply(o, (int)r.below(8));
     else
       ret = c.apply(o);
+    if constexpr (std::is_same_v<C, XMapK>) {
+      if (c.failed) {  // the call threw because a key could not be copied: an event of its own
+        string ev = op_event(c, inst, o, ret);
+        ev.replace(ev.find("\"e\":\"op\""), 8, "\"e\":\"opfail\"");
+        tr.emit(ev);
+        tr.nontrivial("opfail" + o.op + to_string(min<size_t>(before, 3)));
+        continue;
+      }
+    }
     tr.emit(op_event(c, inst, o, ret));
     tr.nontrivial(o.op + "/" + to_string(min<size_t>(before, 3)) + "/" + (ret.empty() ? "-" : to_string(ret[0] < 0 ? -1 : (ret[0] > 1 ? 2 : ret[0]))));
   }
@@ -544,7 +667,10 @@ int main(int argc, char** argv) {
     for (int h = 0; h < nhist; h++) {
       int len = r.chance(20) ? 400 : (int)r.range(5, 120);
       if (h % 2)
-        random_history<XMap>(tr, r, true, len);
+        if (h % 4 == 3)
+          random_history<XMapK>(tr, r, true, len);
+        else
+          random_history<XMap>(tr, r, true, len);
       else
         random_history<XSet>(tr, r, false, len);
     }
